@@ -284,7 +284,15 @@ func (r *PaginatedResourceRepository[ResourceType, OptionsType]) Paginate(
 
 	switch v := any(paginationQuery).(type) {
 	case OffsetPaginatedQuery[OptionsType]:
+		if v.Order == nil {
+			v.Order = pointer.For(r.defaultOrder)
+			paginationQuery = v
+		}
 	case ColumnPaginatedQuery[OptionsType]:
+		if v.Order == nil {
+			v.Order = pointer.For(r.defaultOrder)
+			paginationQuery = v
+		}
 	case InitialPaginatedQuery[OptionsType]:
 
 		if v.Column == "" {
